@@ -62,7 +62,14 @@ def gen_statement(rng):
     for i in range(n):
         lines = gen_desc_lines(rng)
         fmv = comma_num(rng, 0, rng.choice([9, 999, 99999, 9999999]), rng.choice([1, 2]))
-        secs.append({"lines": lines, "alloc": allocs[i], "fmv": fmv, "own_line": rng.random() < 0.45})
+        own_line = rng.random() < 0.45
+        if allocs[i] == "100.0" and rng.random() < 0.5:
+            # the hard case for a holding at 100.0 %: figures on their own line under a description that itself
+            # ends in two number-like tokens
+            own_line = True
+            last = lines[-1].split(" (")[0]
+            lines[-1] = "%s %s %s" % (last, rng.choice(["2030", "7", "500", "60"]), rng.choice(["500", "3.5", "1,250.00", "12"]))
+        secs.append({"lines": lines, "alloc": allocs[i], "fmv": fmv, "own_line": own_line})
     total = comma_num(rng, 0, 99999999, rng.choice([1, 2]))
     total_alloc = rng.choice(["100.0", "100.0", "100.00"])
     month = rng.randint(1, 12)
